@@ -111,11 +111,13 @@ package handler
 // A lease is created only from an open bid on an open order of an open group; it takes the bid's price; order and
 // bid become matched; exactly the other open bids of the order are marked lost and their deposits released.
 //@ func (msgServer).CreateLease$1
+//@   requires 0 <= len(lostbids) && len(lostbids) <= cap(lostbids)
 //@   modifies lostbids, lostbids[*]
 //@   ensures [walk] !result
 //@   ensures [loser] bid.State == types.BidOpen && bid.BidID != old(msg.BidID) ==> len(lostbids) == old(len(lostbids)) + 1 && lostbids[old(len(lostbids))] == bid
 //@   ensures [other] !(bid.State == types.BidOpen && bid.BidID != old(msg.BidID)) ==> lostbids == old(lostbids)
 //@   ensures [kept] forall j: int :: 0 <= j && j < old(len(lostbids)) ==> lostbids[j] == old(lostbids[j])
+//@   ensures [arr] (lostbids == old(lostbids) || (arr(lostbids) == old(arr(lostbids)) && cap(lostbids) == old(cap(lostbids))) || fresh(lostbids)) && 0 <= len(lostbids) && len(lostbids) <= cap(lostbids)
 //@ func (msgServer).CreateLease
 //@   requires msg != nil && wired(ms) && storesWF(ms, KVhas, KVval)
 //@   oncall keeper.(IKeeper).OnBidMatched 1 assert (forall key: str :: KVval[mskey(ms)][key] != old(KVval)[mskey(ms)][key] || KVhas[mskey(ms)][key] != old(KVhas)[mskey(ms)][key] ==>
@@ -131,11 +133,11 @@ package handler
 //@        leaseOf(KVval[mskey(ms)], asLease(bid.BidID)).State == types.LeaseActive && leaseOf(KVval[mskey(ms)], asLease(bid.BidID)).Price == bid.Price
 //@        && ordOf(KVval[mskey(ms)], order.OrderID).State == types.OrderActive && bidOf(KVval[mskey(ms)], bid.BidID).State == types.BidActive
 //@   call 1 invariant KVhas == atloop(KVhas) && KVval == atloop(KVval) && EvN == atloop(EvN) && EvLog == atloop(EvLog) && !cbstop
-//@   call 1 invariant forall j: int :: 0 <= j && j < len(lostbids) ==> lostbids[j].State == types.BidOpen && lostbids[j].BidID != msg.BidID
-//@   call 1 invariant cap(lostbids) > 0 ==> freshloop(lostbids)
+//@   call 1 invariant forall j: int :: 0 <= j && j < len(lostbids) ==> lostbids[j].State == types.BidOpen && lostbids[j].BidID != old(msg.BidID)
+//@   call 1 invariant 0 <= len(lostbids) && len(lostbids) <= cap(lostbids) && (cap(lostbids) > 0 ==> fresh(lostbids) && freshloop(lostbids))
 //@   loop 1 invariant 0 <= iter && iter <= len(lostbids)
-//@   loop 1 invariant forall j: int :: 0 <= j && j < len(lostbids) ==> lostbids[j].State == types.BidOpen && lostbids[j].BidID != msg.BidID
-//@   oncall keeper.(IKeeper).OnBidLost 1 assert bid.State == types.BidOpen && bid.BidID != msg.BidID
+//@   loop 1 invariant forall j: int :: 0 <= j && j < len(lostbids) ==> lostbids[j].State == types.BidOpen && lostbids[j].BidID != old(msg.BidID)
+//@   oncall keeper.(IKeeper).OnBidLost 1 assert bid.State == types.BidOpen && bid.BidID != old(msg.BidID)
 
 // ---- CreateBid (C08) ----------------------------------------------------------------------------
 // A bid is accepted only for an open order, from a registered provider, at a valid price not above the order's
